@@ -30,6 +30,8 @@ INVALID = [
     "module {u}\ncontains\nsubroutine s\n  x = (1\nend subroutine s\nend module {u}\n",
     "x = 1\ny = (\nend\n",
     "subroutine s1\nend subroutine s1\nmodule {u}\ninteger :: k\nk = \nend module {u}\n",
+    "subroutine {u}\n  integer :: sin\n  a = (/ 1,,2 /)\nend subroutine {u}\n",
+    "module mm\ncontains\nsubroutine {u}\n  integer :: cos\n  x = (1\nend subroutine {u}\nend module mm\n",
 ]
 OPS = ["c3", "c8"] + ["v%d" % i for i in range(len(VALID))] + ["i%d" % i for i in range(len(INVALID))]
 
